@@ -1333,6 +1333,11 @@ def _run_check(prop, repo_dir):
     try:
         R, ctx, _ = cli.run_property(prop, repo_dir, "quick")
     except AnalysisError as x:
+        part = getattr(x, "partial", None)
+        if part is not None:
+            new_p, kn_p, _ = cli.classify(prop, part[0], report.load_known_findings())
+            if new_p:
+                return ("violation", [o.key for o in new_p], [o.key for o, _ in kn_p], "incomplete analysis: " + str(x))
         return ("error", [], [], str(x))
     except Exception as x:     # pragma: no cover
         return ("error", [], [], "internal error: %r" % (x,))
